@@ -263,6 +263,11 @@ fn find_words_unicode_break_properties<'a>(
     let stripped = strip_ansi_escape_sequences(line);
     let mut opportunities = unicode_linebreak::linebreaks(&stripped)
         .filter(|(idx, _)| {
+            // The final break at the end of the text is always
+            // kept, it is removed below.
+            if *idx == stripped.len() {
+                return true;
+            }
             #[allow(clippy::match_like_matches_macro)]
             match &stripped[..*idx].chars().next_back() {
                 // We suppress breaks at ‘-’ since we want to control
